@@ -156,6 +156,9 @@ pub fn run(ctx: &Ctx, out: &mut Out, prop: &str) {
             break;
         }
     }
+    if c20 {
+        real_server_outputs(ctx, out, &mut rng);
+    }
     let after = log_counts();
     for (i, name) in ["", "error", "warn", "info", "debug", "trace"].iter().enumerate() {
         if i > 0 {
@@ -164,6 +167,8 @@ pub fn run(ctx: &Ctx, out: &mut Out, prop: &str) {
     }
     out.obs(&format!("shards_at_level_{}", level), 1);
     if c20 {
+        out.floor("real_server_outputs_scanned", 8);
+        out.floor("real_server_failing_startups_scanned", 4);
         out.floor("log_records_scanned", 1_000);
         out.floor("datagrams_scanned", 500);
     } else {
@@ -172,6 +177,84 @@ pub fn run(ctx: &Ctx, out: &mut Out, prop: &str) {
         out.floor("log_records_emitted_debug", 1_000);
         for l in LEVELS {
             out.floor(&format!("shards_at_level_{}", l), 1);
+        }
+    }
+}
+
+
+/// C20, real binary: everything the process prints, over both configuration sources,
+/// including start-ups that fail on *other* settings (their error paths print configuration).
+fn real_server_outputs(ctx: &Ctx, out: &mut Out, rng: &mut Rng) {
+    use crate::procs::*;
+    use crate::refimpl::crypto::{Proto, RefKey};
+    use std::time::Duration;
+    let n = ctx.share(24, 400);
+    for i in 0..n {
+        let k = i * ctx.nshards + ctx.shard;
+        let seed = rng.bytes(32);
+        let nd = needles("seed", &seed).into_iter().chain(needles("scalar", &clamped_scalar(&seed))).collect::<Vec<_>>();
+        let pk = RefKey::from_seed(&seed).public();
+        let via_env = k % 2 == 0;
+        let mut cfg = SrvCfg::new(free_port(false), &seed);
+        cfg.via_env = via_env;
+        cfg.num_workers = Some(*rng.pick(&[1u32, 2, 4]));
+        cfg.fault_percentage = Some(*rng.pick(&[0u32, 10]));
+        let failing = k % 3 == 2;
+        let mut pairs: Vec<(String, String)> = cfg.pairs().into_iter().map(|(a, b)| (a.to_string(), b)).collect();
+        let mut what = "serving".to_string();
+        if failing {
+            let (kk, vv, w) = match (k / 3) % 6 {
+                0 => ("batch_size", "200", "batch_size out of range"),
+                1 => ("fault_percentage", "77", "fault_percentage out of range"),
+                2 => ("port", "0", "port 0"),
+                3 => ("interface", "not-an-address", "bad interface"),
+                4 => ("kms_protection", "arn:aws:kms:x:1:key/abc", "kms without support"),
+                _ => ("no_such_key", "1", "unknown key"),
+            };
+            pairs.retain(|(a, _)| a != kk);
+            pairs.push((kk.to_string(), vv.to_string()));
+            what = format!("failing start-up: {}", w);
+        }
+        let Ok(mut sp) = spawn_server(&ctx.bins, &cfg, &ctx.scratch, &format!("c20-{}", k), Some(pairs)) else {
+            out.inconclusive("spawn failed");
+            continue;
+        };
+        if !failing {
+            if sp.wait_ready(&pk, Duration::from_secs(10)).is_err() {
+                out.inconclusive("real server not ready");
+                continue;
+            }
+            // traffic of all kinds, so that per-request log paths run
+            let s = std::net::UdpSocket::bind("127.0.0.1:0").unwrap();
+            let addr: std::net::SocketAddr = format!("127.0.0.1:{}", sp.cfg.port).parse().unwrap();
+            for i in 0..60 {
+                let d = if i % 3 == 0 { hostile(rng, &[0u8; 32]).data } else { make_request(rng, if i % 2 == 0 { Proto::Classic } else { Proto::Ietf }, None).0 };
+                let _ = s.send_to(&d, addr);
+            }
+            s.set_read_timeout(Some(Duration::from_millis(200))).unwrap();
+            let mut buf = vec![0u8; 4096];
+            let rp = || json!({"kind":"real-server-output","what":what,"source": if via_env {"ENV"} else {"file"}});
+            while let Ok((n, _)) = s.recv_from(&mut buf) {
+                out.obs("datagrams_scanned", 1);
+                scan(out, &buf[..n], &nd, "real-server-datagram", &rp);
+            }
+            sp.signal(libc::SIGTERM);
+            if sp.wait_exit(Duration::from_secs(10)).is_none() {
+                sp.kill();
+            }
+        } else {
+            let _ = sp.wait_exit(Duration::from_secs(10));
+            sp.kill();
+            out.obs("real_server_failing_startups_scanned", 1);
+        }
+        let o = sp.output();
+        out.obs("real_server_outputs_scanned", 1);
+        out.obs("real_server_output_bytes", o.len() as i64);
+        let rp = || json!({"kind":"real-server-output","what":what,"source": if via_env {"ENV"} else {"file"},"output": o.chars().take(1500).collect::<String>()});
+        scan(out, o.as_bytes(), &nd, &format!("real-server-output({})", if failing { "failing-start" } else { "serving" }), &rp);
+        out.case(fnv64(&seed) ^ 0x20, true);
+        if !ctx.time_left() {
+            break;
         }
     }
 }
